@@ -81,7 +81,7 @@ PROPS = {
         "level": "exploration",
         "tests": [
             T("TestC02PairGrid", "kv", 1, 1, enum=True),
-            T("TestC02Merge", "kv", 20000, 16000000, shards=16),
+            T("TestC02Merge", "kv", 20000, 9600000, shards=16),
             T("TestC02Update", "kv", 1500, 800000, shards=16),
         ],
         "assumptions": [
